@@ -1,5 +1,4 @@
 use zvtverif::engine::*;
-use zvtverif::props::*;
 
 fn usage() -> ! {
     eprintln!("usage: zvtverif <C01..C20> <quick|thorough> | zvtverif <ID> --replay <file>");
@@ -19,11 +18,7 @@ fn main() {
             eprintln!("cannot read replay file {path}");
             std::process::exit(2)
         };
-        let r = match id.as_str() {
-            "C16" => c16::replay(&check, &input),
-            "C17" => c17::replay(&check, &input),
-            _ => None,
-        };
+        let r = zvtverif::dispatch().into_iter().find(|d| d.0 == id).and_then(|d| (d.2)(&check, &input));
         match r {
             None => {
                 eprintln!("replay: unknown property/check {id}/{check}");
@@ -46,10 +41,9 @@ fn main() {
         "thorough" => Tier::Thorough,
         _ => usage(),
     };
-    let code = match id.as_str() {
-        "C16" => c16::run(tier),
-        "C17" => c17::run(tier),
-        _ => {
+    let code = match zvtverif::dispatch().into_iter().find(|d| d.0 == id) {
+        Some(d) => (d.1)(tier),
+        None => {
             eprintln!("unknown property {id}");
             2
         }
